@@ -1041,7 +1041,7 @@ def run(ctx: fw.Ctx) -> int:
                 ctx.nontriv(['decl-varies', s_.name, d])
 
     # ---------- random larger registries ----------
-    n = ctx.scale(600, 12000)
+    n = ctx.scale(600, 8000)
     rnd: list[fw.Case] = []
     for i in range(n):
         cls = r.choice(['changing', 'changing', 'changing', 'watching', 'spawning', 'indexing'])
